@@ -15,6 +15,10 @@
 (* N5, which the harness concretises as a number that is unique for the    *)
 (* history (so histories replayed in one process do not share texts).      *)
 (* With V.cache = "refs" / "all" the laws must FAIL (regression configs).  *)
+(* Every Mutate step observes the object before and after the modification *)
+(* (print in 3 formats, parse of the print, canonical text of a new equal  *)
+(* path); with V.pcache = "setters" (canonical text cached in the object,  *)
+(* cleared by setters / path item access only) the laws must FAIL.         *)
 (* `hist` is emitted (PrintT / -simulate) and replayed on the real code.   *)
 (***************************************************************************)
 EXTENDS WbemUriHeap, Json, FiniteSetsExt
@@ -22,7 +26,8 @@ EXTENDS WbemUriHeap, Json, FiniteSetsExt
 CONSTANTS V,          \* design variant (record, see WbemUri)
           MaxLen,     \* length of the histories
           HistFmts,   \* formats of the texts of the universe
-          PrintFmts   \* formats of the Print step
+          PrintFmts,  \* formats of the Print step
+          ObsSeq      \* formats of the observations around a Mutate step
 
 Str(s) == Val("string", "", s, <<>>)
 IntV(s) == Val("int", "py", s, <<>>)
@@ -52,8 +57,10 @@ VARIABLES hist,   \* steps <<kind, n, d, x>> so far
           ist,    \* code shape: process heap
           abs,    \* requirement state
           bad,    \* clauses violated by the last step
-          tab     \* constant: the texts of the universe printed and parsed
-vars == <<hist, ist, abs, bad, tab>>
+          tab,    \* constant: the texts of the universe printed and parsed
+          ph      \* 0, or h: object h has been observed, its modification
+                  \*   follows (first half of a Mutate step)
+vars == <<hist, ist, abs, bad, tab, ph>>
 
 Abs0 == [heap |-> <<>>, texts |-> HistTexts,
          res |-> [i \in DOMAIN HistTexts |-> NoPath]]
@@ -66,14 +73,15 @@ HistPrinted == [i \in DOMAIN HistTexts |->
                   IN [text |-> x, r |-> ParseU(V, HistTexts[i].p.kind, x)]]
 
 Init == hist = <<>> /\ ist = IState0 /\ abs = Abs0 /\ bad = {}
-        /\ tab = HistPrinted
+        /\ tab = HistPrinted /\ ph = 0
 
 Take(st, e, ist2) ==
   /\ hist' = Append(hist, st)
   /\ bad' = HFails(abs, e)
   /\ abs' = IF bad' = {} THEN HApply(abs, e) ELSE abs
   /\ ist' = ist2
-  /\ UNCHANGED tab
+  /\ ph = 0
+  /\ UNCHANGED <<tab, ph>>
 
 ParseStep(t) ==
   LET src == abs.texts[t]
@@ -91,14 +99,66 @@ ParseStep(t) ==
            heap |-> Snapshot(ist2)],
           ist2)
 
+(* OBSERVATION of object h (event hobs): print it, parse the text, print a *)
+(* newly built equal path (canonical).  c = [abs, ist, bad]; the events are *)
+(* judged one after the other, the first rejected one ends the history.     *)
+ObsAllFmts == <<"standard", "historical", "canonical">>
+ObsStdCanon == <<"standard", "canonical">>
+ObsCanon == <<"canonical">>
+ObsNone == <<>>
+ObsOne(c, h, fmt) ==
+  IF c.bad # {} THEN c
+  ELSE LET a == c.ist.roots[h]
+           kind == c.ist.cells[a].kind
+           pr == IPrint(V, c.ist, a, fmt)
+           r == ParseU(V, kind, pr.text)
+           \* the parse allocates (and may go through the cache V.cache)
+           al == IF r.ok /\ V.cache # "none"
+                 THEN AllocU(V, pr.st, kind, pr.text, FALSE)
+                 ELSE [st |-> pr.st, addr |-> 0]
+           q == IF ~r.ok THEN NoPath
+                ELSE IF V.cache = "none" THEN r.p
+                ELSE Deref(al.st.cells, al.addr)
+           cur == c.abs.heap[h]
+           canon == fmt = "canonical"
+           e == [kind |-> "hobs", h |-> h, fmt |-> fmt, printed |-> "ok",
+                 text |-> pr.text,
+                 outcome |-> IF r.ok THEN "path" ELSE r.err,
+                 q |-> q, eq |-> r.ok /\ PathApprox(cur, q),
+                 p2 |-> IF canon THEN Twin(cur) ELSE NoPath,
+                 same |-> canon => PrintU(V, Twin(cur), fmt) = pr.text]
+           b == HFails(c.abs, e)
+       IN [abs |-> IF b = {} THEN HApply(c.abs, e) ELSE c.abs,
+           ist |-> al.st, bad |-> b]
+RECURSIVE ObsFrom(_, _, _)
+ObsFrom(c, h, i) == IF i > Len(ObsSeq) THEN c
+                    ELSE ObsFrom(ObsOne(c, h, ObsSeq[i]), h, i + 1)
+ObsAll(c, h) == ObsFrom(c, h, 1)
+
+(* a modification of object h (operation f at the place d levels down),    *)
+(* with an observation of h in every format BEFORE (ObsBefore: first half  *)
+(* of the step, shared by all operations on h) and AFTER it                *)
+(* (\E over a singleton: TLC evaluates the bound expression once)          *)
+ObsBefore(h) ==
+  /\ ph = 0
+  /\ \E c1 \in {ObsAll([abs |-> abs, ist |-> ist, bad |-> {}], h)} :
+        /\ abs' = c1.abs /\ ist' = c1.ist /\ bad' = c1.bad
+        /\ ph' = h
+        /\ UNCHANGED <<hist, tab>>
 MutateStep(h, d, f) ==
+  /\ ph = h
   /\ TreeHas(abs.heap[h], d, f)
   /\ IMutOk(ist, h, d, f)
-  /\ LET ist2 == IMutate(ist, h, d, f)
-     IN Take(<<"mutate", h, d, f>>,
-             [kind |-> "hmutate", h |-> h, d |-> d, f |-> f,
-              heap |-> Snapshot(ist2)],
-             ist2)
+  /\ \E ist2 \in {IMutate(V, ist, h, d, f)} :
+     \E e \in {[kind |-> "hmutate", h |-> h, d |-> d, f |-> f,
+                heap |-> Snapshot(ist2)]} :
+     \E b \in {HFails(abs, e)} :
+     \E c3 \in {ObsAll([abs |-> IF b = {} THEN HApply(abs, e) ELSE abs,
+                        ist |-> ist2, bad |-> b], h)} :
+        /\ hist' = Append(hist, <<"mutate", h, d, f>>)
+        /\ abs' = c3.abs /\ ist' = c3.ist /\ bad' = c3.bad
+        /\ ph' = 0
+        /\ UNCHANGED tab
 
 PrintStep(h, f) ==
   Take(<<"print", h, 0, f>>,
@@ -109,6 +169,7 @@ PrintStep(h, f) ==
 Next ==
   /\ bad = {} /\ Len(hist) < MaxLen
   /\ \/ \E t \in DOMAIN abs.texts : ParseStep(t)
+     \/ \E h \in DOMAIN abs.heap : ObsBefore(h)
      \/ \E h \in DOMAIN abs.heap : \E d \in 0..2 : \E f \in MutFields :
           MutateStep(h, d, f)
      \/ \E h \in DOMAIN abs.heap : \E f \in PrintFmts : PrintStep(h, f)
@@ -118,7 +179,7 @@ Spec == Init /\ [][Next]_vars
 (* round trip / printed URI accepted / a parse is a function of the text   *)
 HistRoundTrip ==
   bad \cap {"RoundTrip", "RoundTripEq", "PrintedAccepted", "ParserTotal",
-            "ParseFunctional"} = {}
+            "ParseFunctional", "CanonicalEqual"} = {}
 (* returned objects are independent of each other and of later calls       *)
 HistIndependent == "Independent" \notin bad
 HistWellFormed == bad \cap {"BadHistory", "Printed", "UnknownEvent"} = {}
@@ -128,10 +189,13 @@ HistWellFormed == bad \cap {"BadHistory", "Printed", "UnknownEvent"} = {}
 ASSUME \E i, j \in DOMAIN HistTexts :
          i # j /\ HistTexts[i].p # HistTexts[j].p /\
          TreeHas(HistTexts[i].p, 1, "ns") /\ TreeHas(HistTexts[j].p, 1, "ns")
-ASSUME \E i \in DOMAIN HistTexts : TreeHas(HistTexts[i].p, 2, "kbset")
+ASSUME \E i \in DOMAIN HistTexts : TreeHas(HistTexts[i].p, 2, "kbset.dict")
+ASSUME \E i \in DOMAIN HistTexts : TreeHas(HistTexts[i].p, 1, "kbdel.item")
+ASSUME \A i \in DOMAIN HistTexts : PathSame(HistTexts[i].p,
+                                              Twin(HistTexts[i].p))
 
 (* complete histories for the spec -> code replay                          *)
-Emit == Len(hist) < MaxLen \/ PrintT(<<"HH", hist>>)
+Emit == Len(hist) < MaxLen \/ ph # 0 \/ PrintT(<<"HH", hist>>)
 
 ASSUME "EMIT_FILE" \notin DOMAIN IOEnv \/ IOEnv.EMIT_FILE = "" \/
        /\ JsonSerialize(IOEnv.EMIT_FILE,
